@@ -2,7 +2,7 @@
 (***************************************************************************)
 (* Batch validation of recorded inference observations against the         *)
 (* P-layer (MTInferP).  One ndjson line per collection of values:          *)
-(*   {tid, k, vals: [Value...], runs: [{ty: Type, err: "NONE"|class}...]}  *)
+(*   {tid, k, k1, vals: [Value...], runs: [{ty, err: "NONE"|class}...]}    *)
 (* runs = what the real get_type/shrink_types returned for different       *)
 (* orders and multiplicities of the same values.  Trace actions are TOTAL: *)
 (* a bad observation never disables a step, it adds the names of the       *)
@@ -30,7 +30,9 @@ RunStep ==
          ty1  == IF rec.runs[1].err # "NONE" THEN TAbsent ELSE J2T(rec.runs[1].ty)
      IN /\ viol' = viol \cup InferViol(vals, rec.k, ty, err)
                         \cup (IF ty # ty1 THEN {"OrderFree"} ELSE {})
-        /\ drift' = (drift \/ (~err /\ ty # Infer(vals, rec.k)))
+        \* k1 = the limit under which the per-value types were collected (tracing time), k = the limit
+        \* under which they are merged (stub time); usually the same
+        /\ drift' = (drift \/ (~err /\ ty # Shrink({GetType(v, rec.k1) : v \in vals}, rec.k)))
   /\ r' = r + 1 /\ UNCHANGED i
 
 EndTrace ==
